@@ -41,8 +41,8 @@ on the extracted tables by the kernel).  For ANY field and `s` with `2s³` a non
 with different abscissae have different abscissae, because `P₁ ± P₂` are rational and the kernel is
 not); additivity up to sign, oddness and the absence of 2-torsion give additivity.
 
-NOT covered: the degree-11 isogeny `E₁' → E₁` of G1 (its kernel IS rational and the identities are
-far larger); that clause of C16 still rests on differential testing.
+NOT covered IN THIS FILE (PROVED in PP/Props/C16Hom11.lean): the degree-11 isogeny `E₁' → E₁` of G1 (its kernel IS rational and the identities are
+far larger; handled there by grid evaluation in the kernel and translation invariance under the kernel).
 -/
 import PP.Proofs.IsoHomInst
 import PP.Props.C14
